@@ -19,6 +19,19 @@ pub const BUILTIN: &[&str] = &[
     "not = (b : bool) => if b then false else true\nnot (1 > 2)",
 ];
 
+// small higher-order / dependent programs whose single-node perturbations combined with one punched hole are
+// enumerated completely (generator `hopunch`): inference then has to carry holes through substitution
+pub const HIGHER_ORDER: &[&str] = &[
+    "((f : int -> int) => f 1 + 1) ((x : int) => x * 2)",
+    "((f : int -> bool) => if f 1 then 1 else 2) ((x : int) => x < 2)",
+    "apply = (a : type) => (b : type) => (f : a -> b) => (x : a) => f x\napply int int ((x : int) => x + 1) 3",
+    "k = (a : type) => (b : type) => (x : a) => (y : b) => x\nk int bool 1 true + 1",
+    "id = (a : type) => (x : a) => x\nid (int -> int) ((y : int) => y) 4",
+    "t : type = int -> int\ng : t = (x : int) => x\n((h : t) => h 2) g",
+    "compose = (f : int -> int) => (g : int -> int) => (x : int) => f (g x)\ncompose ((a : int) => a + 1) ((b : int) => b * 2) 5",
+    "((p : (a : type) -> a -> a) => p int 3) ((a : type) => (x : a) => x)",
+];
+
 pub fn programs() -> Vec<String> {
     let mut v: Vec<String> = BUILTIN.iter().map(|s| s.to_string()).collect();
     let dir = std::env::var("GRAM_SRC").map(|s| format!("{s}/../examples")).unwrap_or_else(|_| "/repo/examples".into());
